@@ -99,7 +99,7 @@ def execute(ctx, binary, mode, scheds, tag, extra=(), timeout=1800, start_id=0):
     return tp
 
 
-def confirm(ctx, rep, sched_of, rerun, per_key=1, max_keys=60):
+def confirm(ctx, rep, sched_of, rerun, per_key=1, max_keys=60, line_sched=None):
     """Monitor reports -> violations.  Reports are grouped by (clauses, tags); the schedules of the first
     occurrence(s) of every group are executed a second time from scratch (one batch: rerun([sched...]) ->
     TraceReport whose trace ids are the positions in the batch) and a group is kept only if the same clauses
@@ -108,8 +108,11 @@ def confirm(ctx, rep, sched_of, rerun, per_key=1, max_keys=60):
     for (tid, line, clauses, tags) in rep.monitors:
         key = (tuple(sorted(clauses)), tuple(sorted(tags)))
         groups.setdefault(key, [])
-        if tid not in groups[key]:
-            groups[key].append(tid)
+        ref = line if line_sched else tid     # line_sched: schedules hold many inputs; re-execute the failing input only
+        if ref not in groups[key]:
+            groups[key].append(ref)
+    if line_sched:
+        sched_of = line_sched
     if not groups:
         return []
     keys = sorted(groups)[:max_keys]
@@ -147,7 +150,7 @@ def expect_model_violation(ctx, module, cfg, what):
 
 
 def run(ctx, replay=None):
-    return {"C31": run_c31, "C09": run_c09, "C32": run_c32}[ctx.prop](ctx, replay)
+    return {"C31": run_c31, "C09": run_c09, "C32": run_c32, "C21": run_c21}[ctx.prop](ctx, replay)
 
 
 # ----------------------------------------------------------------------------- C31
@@ -310,4 +313,56 @@ def run_c32(ctx, replay):
     assume = ["codec fidelity is checked for strings over a 3-byte alphabet (incl. the magic byte, NUL, the empty string), not for arbitrary values (DESIGN.md 7)",
               "join/leave/push-pull message kinds cross the real codec in the replica family's runs, not here",
               "C32_fitting_rejected (a fitting tag set is accepted) is the completeness reading of the size sentence; the property text itself only needs C32_accepted_too_large"]
+    vlib.finish(ctx, "exploration", cov, assume, new, known)
+
+
+# ----------------------------------------------------------------------------- C21
+
+def run_c21(ctx, replay):
+    r2, r3, rich = (4, 2, "TRUE") if ctx.thorough() else (3, 1, "FALSE")
+    consts = "CONSTANT R2 = %d\nCONSTANT R3 = %d\nCONSTANT Rich = %s\n" % (r2, r3, rich)
+    binary = build(ctx)
+    mc = None
+    if replay:
+        scheds = [json.load(open(replay))["schedule"]]
+    else:
+        mc, states = dump_states(ctx, "Gen_RTT", consts + "INIT Init\nNEXT Next\nINVARIANT C21\nINVARIANT LawsHold\n",
+                                 keep=lambda s: s["ph"] == "in", workers=2, timeout=3000)
+        if mc.violated:
+            raise vlib.Inconclusive("the RTT definition violates %s -- spec error, no verdict" % mc.violated)
+        inputs = sorted((s["inp"] for s in states), key=lambda i: json.dumps(i, sort_keys=True))
+        scales = [-9, 0, 10, -3, 7]
+        for n, i in enumerate(inputs):   # the lattice unit (2^sc seconds) is a concretization parameter
+            i["sc"] = scales[(n + ctx.seed) % len(scales)]
+        # many inputs per schedule keeps the trace file small (a reset line per schedule)
+        scheds = [inputs[k:k + 50] for k in range(0, len(inputs), 50)]
+    tcfg = TRACE_CFG + consts
+    tp = execute(ctx, binary, "rtt", scheds, "r")
+    rep = vlib.validate(ctx, "Trace_RTT", tcfg, tp, timeout=3000)
+
+    def rerun(batch):
+        return vlib.validate(ctx, "Trace_RTT", tcfg, execute(ctx, binary, "rtt", batch, "re"))
+
+    # re-execute only the failing input, not its whole schedule
+    lines = vlib.read_ndjson(tp)
+    viol = confirm(ctx, rep, None, rerun, line_sched=lambda line: [lines[line - 1]["act"]])
+    new, known = vlib.classify(ctx.prop, viol)
+    n_exact = sum(1 for s in scheds for i in s if i["ep"] == "exact")
+    n_float = sum(1 for s in scheds for i in s if i["ep"] == "float")
+    cov = {
+        "states": mc.distinct if mc else 1, "transitions": mc.generated if mc else 1, "exhaustive": bool(mc),
+        "model_constants": "integer lattice: components -%d..%d (dim 1,2), -%d..%d (dim 3), Pythagorean pairs only, heights/adjustment "
+                           "offsets rich=%s, unit 2^sc s with sc in {-9,-3,0,7,10}; %d exact pairs, %d float classes x 40 seeded draws" % (
+                               r2, r2, r3, r3, rich, n_exact, n_float),
+        "traces_validated_against_impl": rep.traces, "trace_lines": rep.lines, "divergences": len(rep.diverged),
+        "evaluations": rep.lines - rep.traces, "distinct_nontrivial": n_exact + n_float,
+        "monitor_reports": len(rep.monitors),
+        "rule": "one evaluation per TLC initial state of Gen_RTT; exact inputs: DistanceTo both ways must equal the integer model "
+                "exactly (in lattice units, no remainder); float classes: only non-negativity and symmetry within 1 ns are judged",
+        "samples": [scheds[0][:3]] if scheds else [],
+    }
+    assume = ["IEEE-754 arithmetic is exact on the lattice (small integers times a power of two, integer Euclidean distances)",
+              "homogeneity: the lattice unit is chosen by the harness, the model is unit-free",
+              "rounding behaviour for arbitrary floats ('up to floating-point rounding') is NOT decided; a panic with "
+              "DimensionalityConflictError counts as the dimensionality error"]
     vlib.finish(ctx, "exploration", cov, assume, new, known)
